@@ -53,3 +53,6 @@ Proof.
       subst. apply H2. now left.
     + apply IH; [assumption|]. intros Hin. apply H2. now right.
 Qed.
+
+Lemma firstn_In {A} (n : nat) (l : list A) (x : A) : In x (firstn n l) -> In x l.
+Proof. intros H. rewrite <- (firstn_skipn n l). apply in_or_app. now left. Qed.
